@@ -29,6 +29,7 @@ static uint64_t pool_before[MAXPOOL][MAXP];
 static uint64_t pool_evstart[MAXPOOL][MAXP];   /* holdings when the current event began */
 static double t_before;
 static uint32_t main_csr;
+extern uint64_t hev_count_for_subject(const void *pp);
 static bool cond_observes[MAXCOND][MAXGUARD];
 /* timers that fired (delivered to their owner), by event handle: survives a restart of the owner, whose cause table is reset */
 #define MAXFIRED 512
@@ -777,6 +778,8 @@ void mon_after_event(void)
                 viol("C06", "priority-not-repositioned", "process %d waits with sort priority %" PRId64 " but its priority is %" PRId64, after[a].pid, after[a].prio, PR[after[a].pid].pp->priority);
     }
 
+    for (int e = 0; e < MAXHEV; e++) hev_check_vanished(e);
+
     /* C13: remember whether a waiter's predicate has been false while it waited */
     for (int i = 0; i < W.np; i++) if (PR[i].op == OP_CWAIT && !PR[i].finished) {
         if (!pred_now(i)) PR[i].cond_seen_false = true;
@@ -850,7 +853,7 @@ void mon_after_event(void)
         for (int r = 0; r < W.nres; r++)
             if (W.res[r]->holder == pr->pp) viol("C09", "resource-not-released", "ended process %d is still the holder of resource %d", i, r);
         if (!pr->start_pending) {
-            const uint64_t n = cmb_event_pattern_count(CMB_ANY_ACTION, pr->pp, CMB_ANY_OBJECT);
+            const uint64_t n = cmb_event_pattern_count(CMB_ANY_ACTION, pr->pp, CMB_ANY_OBJECT) - hev_count_for_subject(pr->pp);
             if (n != 0) viol("C09", "event-pending-for-ended-process", "%" PRIu64 " event(s) addressed to process %d are still scheduled right after the event in which it ended (t=%g)", n, i, now);
         }
     }
@@ -924,7 +927,7 @@ void mon_boundary_eval(void)
     for (int i = 0; i < W.np; i++) {
         const proc *pr = &PR[i];
         if (!pr->finished || pr->start_pending) continue;
-        const uint64_t n = cmb_event_pattern_count(CMB_ANY_ACTION, pr->pp, CMB_ANY_OBJECT);
+        const uint64_t n = cmb_event_pattern_count(CMB_ANY_ACTION, pr->pp, CMB_ANY_OBJECT) - hev_count_for_subject(pr->pp);
         if (n != 0) pend_viol("C09", "event-pending-for-ended-process", "%" PRIu64 " event(s) addressed to ended process %d are still scheduled at the end of instant t=%g", n, i, now);
     }
     /* C08 */
